@@ -2,11 +2,11 @@ package main
 
 import (
 	"fmt"
-	"os"
 	"go/ast"
 	"go/printer"
 	"go/token"
 	"go/types"
+	"os"
 	"strings"
 
 	"golang.org/x/tools/go/ssa"
@@ -589,6 +589,14 @@ func (vc *VC) modifiesTargets3(spec *FuncSpec, env *Env) (targets []modTarget, a
 				}
 				n, s := vc.elemVar(st.Elem())
 				targets = append(targets, modTarget{n, s, slRef(sl.S)})
+			case strings.HasPrefix(item, "freevar(") && strings.HasSuffix(item, ")"):
+				// freevar(N): the N-th captured variable of the function (a cell)
+				t, ok := env.lookup("&#" + strings.TrimSpace(item[8:len(item)-1]))
+				if !ok {
+					panic(execErr("no such captured variable in modifies " + item))
+				}
+				n, s := vc.cellVar(derefT(t.T))
+				targets = append(targets, modTarget{n, s, t.S})
 			case strings.HasPrefix(item, "cells(") && strings.HasSuffix(item, ")"):
 				t, _ := env.resolveType(item[6 : len(item)-1])
 				n, s := vc.cellVar(t)
